@@ -256,7 +256,7 @@ class Kinds(Facet):
     shards = {"quick": 16, "thorough": 16}
 
     def enumerate(self, tier):
-        maxd = 3 if tier == "quick" else 4
+        maxd = 4
         for nd in range(1, maxd + 1):
             letters = list("abcd"[:nd])
             for lens in ([2] * nd, [2, 3, 2, 3][:nd], [3, 1, 2, 2][:nd]):
@@ -282,6 +282,115 @@ class Kinds(Facet):
 
     def run(self, desc):
         return run_read(desc) if desc["rw"] == "read" else run_write(desc)
+
+
+# --------------------------------------------------------------------------- sequences
+
+
+@st.composite
+def sequence_cases(draw):
+    """Several similar keys applied one after the other to the SAME array object (reads and writes)."""
+    U = draw(gen.universes(min_dims=2, max_dims=4, max_len=6, min_len=1))
+    x = draw(gen.arrays(U, modes=("coded",), min_dims=2))
+    steps = []
+    sel = draw(selectors(U, x["letters"], allow_list=True))
+    for i in range(draw(st.integers(2, 4))):
+        if i > 0:
+            # a similar key: same dims and selector kinds; interiors of the item lists shuffled or one item exchanged
+            sel = {l: dict(v, items=list(v["items"])) for l, v in sel.items()}
+            for l, v in sel.items():
+                full = build.udim(U, l)["items"]
+                its = v["items"]
+                how = draw(st.integers(0, 3))
+                if v["kind"] == "single":
+                    if how == 0:
+                        v["items"] = [full[draw(st.integers(0, len(full) - 1))]]
+                elif how == 1 and len(its) >= 4:
+                    mid = list(draw(st.permutations(its[1:-1])))
+                    v["items"] = [its[0]] + mid + [its[-1]]
+                elif how == 2 and len(its) >= 3:
+                    rest = [f for f in full if f not in its]
+                    if rest:
+                        k = draw(st.integers(1, len(its) - 2))
+                        v["items"] = its[:k] + [rest[draw(st.integers(0, len(rest) - 1))]] + its[k + 1 :]
+                elif how == 3:
+                    v["items"] = list(draw(st.permutations(its)))
+        rw = draw(st.sampled_from(["read", "read", "write"]))
+        if rw == "read" and any(v["kind"] == "list" for v in sel.values()):
+            rw = "write"
+        steps.append({"sel": {l: dict(v) for l, v in sel.items()}, "rw": rw, "rhs": draw(st.sampled_from([{"kind": "number", "v": -7.5}, {"kind": "ndarray"}]))})
+    return {"universe": U, "x": x, "steps": steps, "copy_between": draw(st.booleans())}
+
+
+def run_sequence(desc):
+    U, xd = desc["universe"], desc["x"]
+    x = build.array(U, xd)
+    cur = build.marr(U, xd)
+    uorder = gen.uletters(U)
+    n_lists = 0
+    for si, stp in enumerate(desc["steps"]):
+        sel = stp["sel"]
+        key = make_key(U, sel, "dict_letter")
+        rl, ritems, orig = region(U, xd["letters"], sel)
+        singles = {l: s_["items"][0] for l, s_ in sel.items() if s_["kind"] == "single"}
+        if stp["rw"] == "read":
+            res = x[key]
+
+            def f(lab):
+                full = dict(singles)
+                for l in rl:
+                    full[orig[l]] = lab[l]
+                return cur.get(full)
+
+            exp = MArr.from_fn(rl, ritems, f)
+            require(tuple(res.values.shape) == tuple(res.dims.shape), "read-shape", f"step {si}")
+            d = model.diff(exp, MArr.from_flodym(res))
+            require(d is None, "sequence-read-wrong-entries", f"step {si} of {len(desc['steps'])} on the same array: {d}; keys {[{l: v['items'] for l, v in s_['sel'].items()} for s_ in desc['steps'][: si + 1]]}")
+        else:
+            rhs = stp["rhs"]
+
+            def rv(lab, si=si):
+                if rhs["kind"] == "number":
+                    return float(rhs["v"]) - si
+                code = 0
+                for l in rl:
+                    code += (ritems[l].index(lab[l]) + 1) * 10 ** uorder.index(orig[l])
+                return float(-(code * 3 + 1 + si))
+
+            if rhs["kind"] == "number":
+                x[key] = float(rhs["v"]) - si
+            else:
+                x[key] = build.ndarray_from_fn(rl, ritems, rv, float)
+            sel_items = {orig[l]: ritems[l] for l in rl}
+
+            def f(lab, cur=cur):
+                for l, it in singles.items():
+                    if lab[l] != it:
+                        return cur.get(lab)
+                for l in xd["letters"]:
+                    if l in sel_items and lab[l] not in sel_items[l]:
+                        return cur.get(lab)
+                return rv({l: lab[orig[l]] for l in rl})
+
+            cur = MArr.from_fn(xd["letters"], build.uitems(U), f)
+            d = model.diff(cur, MArr.from_flodym(x))
+            require(d is None, "sequence-write-wrong-entries", f"step {si}: {d}")
+        n_lists += sum(1 for v in sel.values() if v["kind"] != "single" and len(v["items"]) >= 4)
+        if desc.get("copy_between") and si == 0:
+            x = x.copy()
+    return {"nontrivial": len(desc["steps"]) >= 2, "classes": [f"steps:{len(desc['steps'])}"] + (["long-subsets"] if n_lists >= 2 else [])}
+
+
+class Sequence(Facet):
+    name = "sequence"
+    examples = {"quick": 6000, "thorough": 240000}
+    shards = {"quick": 16, "thorough": 16}
+
+    def strategy(self, tier):
+        return sequence_cases()
+
+    def run(self, desc):
+        return run_sequence(desc)
 
 
 # ----------------------------------------------------------------------------- errors
@@ -432,10 +541,12 @@ Prop(
     "every dimension a selector kind none / single item / subset Dimension (fresh letter, any item order) / list "
     "(writes), written as dict by letter, by name, mixed, bare item or tuple; reads compared entry by entry and by "
     "result dims with the label-dict model, writes (number or region-shaped ndarray) must change exactly the addressed "
-    "entries. kinds: exhaustive selector-kind assignment for <=3 (thorough 4) dims. errors: unknown / ambiguous items, "
+    "entries. kinds: exhaustive selector-kind assignment for <= 4 dims (three length patterns; thorough: both storage orders). "
+    "sequence: 2-4 similar keys (interiors of item lists shuffled, one item exchanged) applied one after the other to the same array object, "
+    "reads and writes, dims of up to 6 items. errors: unknown / ambiguous items, "
     "slices, non-subset Dimensions must raise and leave the array untouched. lookup: items_where / split / stack. "
     "Non-trivial = >=2 selector kinds in one key, or a reordered subset, or a kept dimension between two selected ones.",
-    [Read(), Write(), Kinds(), Errors(), Lookup()],
+    [Read(), Write(), Kinds(), Sequence(), Errors(), Lookup()],
     assumptions=[
         "subset Dimensions carry a fresh letter (the library refuses a replacement with a letter already in the set)",
         "items_where rows are compared as strings (numpy stringifies mixed label types)",
